@@ -92,6 +92,19 @@ theorem isInside_reverse {vs : List (P2 ℝ)} {p : P2 ℝ}
   rw [e1, e2, Bool.eq_iff_iff]
   simp only [bne_iff_ne, ne_eq, neg_eq_zero]
 
+/-- the hypothesis of `halfTurnSum_even` / `isInside_reverse` holds for the unit square and (1/2, 1/3) -/
+theorem unitSquare_off : ∀ e ∈ edges unitSquare, onSegment e.1 e.2 (⟨1/2, 1/3⟩ : P2 ℝ) = false := by
+  intro e he
+  simp only [unitSquare, edges, roll, List.cons_append, List.nil_append, List.zip_cons_cons,
+    List.zip_nil_right, List.mem_cons, List.not_mem_nil, or_false] at he
+  rcases he with rfl | rfl | rfl | rfl <;>
+    simp only [onSegment, orient, dot2, eqb_real, Scalar.lit, Scalar.ofNat_real] <;> norm_num
+
+example : isInsideRot unitSquare.reverse ⟨1/2, 1/3⟩ = isInsideRot unitSquare ⟨1/2, 1/3⟩ :=
+  isInside_reverse unitSquare_off
+
+example : ∃ k : Int, halfTurnSum unitSquare ⟨1/2, 1/3⟩ = 2 * k := halfTurnSum_even unitSquare_off
+
 /-! ### one triangle -/
 
 /-- **The half-turn sum round a positively oriented triangle** is `2` if the point is strictly
@@ -163,6 +176,15 @@ example : onBoundary sampleTri ⟨0, 5⟩ = false ∧ inTriangle sampleTri ⟨0,
   · simp only [onBoundary, onSegment, sampleTri, orient, dot2, eqb_real, Scalar.lit, Scalar.ofNat_real]
     norm_num
   · simp only [inTriangle, sampleTri, orient, Scalar.lit, Scalar.ofNat_real]
+    norm_num
+
+/-- the clockwise copy of `sampleTri` satisfies the hypotheses of `winding_triangle_neg` at (1,1) -/
+example : orient sampleTri.flip.a sampleTri.flip.b sampleTri.flip.c < 0 ∧
+    onBoundary sampleTri.flip ⟨1, 1⟩ = false := by
+  constructor
+  · norm_num [sampleTri, Tri2.flip, orient]
+  · simp only [onBoundary, onSegment, sampleTri, Tri2.flip, orient, dot2, eqb_real, Scalar.lit,
+      Scalar.ofNat_real]
     norm_num
 
 /-! ### whole polygons -/
